@@ -11,6 +11,8 @@
 package controller
 
 import (
+	"bytes"
+	"compress/gzip"
 	"context"
 	"crypto/md5"
 	"encoding/json"
@@ -103,23 +105,54 @@ type f18Body struct {
 
 func (b *f18Body) Close() error { b.onClose(); return nil }
 
+// the client's side of the exchange: tells when the controller starts to respond
+type f18Writer struct {
+	*httptest.ResponseRecorder
+	once    sync.Once
+	started chan struct{}
+}
+
+func (w *f18Writer) WriteHeader(code int) {
+	w.once.Do(func() { close(w.started) })
+	w.ResponseRecorder.WriteHeader(code)
+}
+func (w *f18Writer) Write(p []byte) (int, error) {
+	w.once.Do(func() { close(w.started) })
+	return w.ResponseRecorder.Write(p)
+}
+
 type f18Remote struct {
 	id   string
 	ans  *f18Answer
 	gate chan struct{}
+	gzip bool // this cluster compresses its responses when the request allows it
 }
 
 type f18Transport struct {
 	mtx     sync.Mutex
 	calls   []string
 	local   *f18Answer
+	localGz bool
 	remotes map[string]*f18Remote // by host
 	arrived chan string
 	closed  chan string
 }
 
-func (t *f18Transport) response(req *http.Request, id string, a *f18Answer) *http.Response {
+// response builds what Go's http.Transport would hand to the caller.  A compressing cluster sends gzip only if
+// the request says Accept-Encoding: gzip.  If the caller did not set that header, http.Transport asks for gzip on
+// its own and decompresses transparently (the caller sees the plain body, no Content-Encoding); if the caller set
+// it explicitly, the compressed body is handed over as it is, with Content-Encoding: gzip.
+func (t *f18Transport) response(req *http.Request, id string, a *f18Answer, compresses bool) *http.Response {
 	h := http.Header{}
+	raw := a.raw
+	if compresses && len(raw) > 0 && strings.Contains(strings.ToLower(req.Header.Get("Accept-Encoding")), "gzip") {
+		var buf bytes.Buffer
+		zw := gzip.NewWriter(&buf)
+		zw.Write([]byte(raw))
+		zw.Close()
+		raw = buf.String()
+		h.Set("Content-Encoding", "gzip")
+	}
 	if a.bodyKind == f18Junk {
 		h.Set("Content-Type", "text/html")
 	} else {
@@ -130,8 +163,8 @@ func (t *f18Transport) response(req *http.Request, id string, a *f18Answer) *htt
 	}
 	return &http.Response{
 		Status: fmt.Sprintf("%d %s", a.code, http.StatusText(a.code)), StatusCode: a.code,
-		Proto: "HTTP/1.1", ProtoMajor: 1, ProtoMinor: 1, Header: h, ContentLength: int64(len(a.raw)), Request: req,
-		Body: &f18Body{Reader: strings.NewReader(a.raw), onClose: func() {
+		Proto: "HTTP/1.1", ProtoMajor: 1, ProtoMinor: 1, Header: h, ContentLength: int64(len(raw)), Request: req,
+		Body: &f18Body{Reader: strings.NewReader(raw), onClose: func() {
 			select {
 			case t.closed <- id:
 			default:
@@ -149,7 +182,7 @@ func (t *f18Transport) RoundTrip(req *http.Request) (*http.Response, error) {
 		if t.local.kind == f18Fail {
 			return nil, errors.New("stub transport error")
 		}
-		return t.response(req, "", t.local), nil
+		return t.response(req, "", t.local, t.localGz), nil
 	}
 	rem := t.remotes[host]
 	if rem == nil {
@@ -174,7 +207,7 @@ func (t *f18Transport) RoundTrip(req *http.Request) (*http.Response, error) {
 		<-req.Context().Done()
 		return nil, req.Context().Err()
 	}
-	return t.response(req, rem.id, rem.ans), nil
+	return t.response(req, rem.id, rem.ans, rem.gzip), nil
 }
 
 // the same content as another cluster holds it: other signatures
@@ -311,6 +344,14 @@ func f18Handler(tr *f18Transport, local string, remotes []string, extra bool, am
 // manifest_text member
 func f18Observe(rw *httptest.ResponseRecorder) (string, int, bool, string) {
 	body := rw.Body.Bytes()
+	if strings.Contains(rw.Header().Get("Content-Encoding"), "gzip") {
+		// a client that asked for gzip decodes what it gets
+		if zr, err := gzip.NewReader(bytes.NewReader(body)); err == nil {
+			if plain, err := ioutil.ReadAll(zr); err == nil {
+				body = plain
+			}
+		}
+	}
 	var obj map[string]json.RawMessage
 	has := false
 	var manifest string
@@ -327,6 +368,10 @@ func f18Observe(rw *httptest.ResponseRecorder) (string, int, bool, string) {
 	}
 	return term, rw.Code, has, manifest
 }
+
+// how long a remote's request may take to reach the transport when a slot is free, before the case records that
+// it never did (a judged observation, never reached on a correct tree)
+var f18Watchdog = 15 * time.Second
 
 func TestVerifC18Fan(t *testing.T) {
 	seed := vSeed()
@@ -430,83 +475,157 @@ func TestVerifC18Fan(t *testing.T) {
 			tags = append(tags, "local:"+la.label)
 		}
 
-		tr := &f18Transport{local: la, remotes: map[string]*f18Remote{}, arrived: make(chan string, 16), closed: make(chan string, 64)}
+		tr := &f18Transport{local: la, localGz: r.Bool(), remotes: map[string]*f18Remote{}, arrived: make(chan string, 16), closed: make(chan string, 64)}
 		var rems []*f18Remote
 		for _, id := range remotes {
-			rem := &f18Remote{id: id, gate: make(chan struct{})}
+			rem := &f18Remote{id: id, gate: make(chan struct{}), gzip: r.Bool()}
 			rem.ans = f18Draw(r, id, base, pdh, req, mode, &tags)
 			tags = append(tags, "remote:"+rem.ans.label)
 			rems = append(rems, rem)
 			tr.remotes[f18Host(id)] = rem
 		}
-		// release order: a permutation of the remotes; the silent ones end last (when everything is cancelled)
+		// priority among the remotes whose requests are in flight: a permutation
 		order := append([]*f18Remote{}, rems...)
 		for k := len(order) - 1; k > 0; k-- {
 			j := r.Intn(k + 1)
 			order[k], order[j] = order[j], order[k]
 		}
-		sort.SliceStable(order, func(a, b int) bool { return order[a].ans.kind != f18Hang && order[b].ans.kind == f18Hang })
 		extra := r.Chance(1, 3)
-		amplification := []int{0, 4, 4, 16}[r.Intn(4)]
+		// API.MaxRequestAmplification: how many remote requests may be in flight (0 = no limit)
+		amplification := []int{0, 4, 4, 16, 1, 2, 3, 1}[r.Intn(8)]
+		if !byUUID && len(rems) >= 2 && r.Chance(1, 4) {
+			// silent remotes hold every slot but one, and some remote has the collection
+			nh := 1 + r.Intn(len(rems)-1)
+			for k, rem := range order {
+				if k < nh {
+					rem.ans = &f18Answer{kind: f18Hang, label: "hang"}
+				} else if k == nh {
+					rem.ans = &f18Answer{kind: f18Resp, code: 200, label: "match"}
+					rem.ans.setCol(rem.id, pdh, l18Render(f18Resign(r, base, mode), true))
+				}
+			}
+			amplification = nh + 1
+			tags = append(tags, "capacity:silent+1")
+			for k := len(order) - 1; k > 0; k-- {
+				j := r.Intn(k + 1)
+				order[k], order[j] = order[j], order[k]
+			}
+		}
+		tags = append(tags, fmt.Sprintf("amplification:%d", amplification))
 		h := f18Handler(tr, local, remotes, extra, amplification, r)
 		stack := h.setupProxyRemoteCluster(prepend(http.NotFoundHandler(), h.proxyRailsAPI))
 
 		ctx, cancel := context.WithCancel(ctxlog.Context(context.Background(), logger))
 		hreq := httptest.NewRequest("GET", "http://controller.example"+path, nil).WithContext(ctx)
 		hreq.Header.Set("Authorization", "Bearer v2/"+local+"-gj3su-"+l18RandHex(r, 15)+"/"+l18RandHex(r, 40)+l18RandHex(r, 10))
+		// request headers of the client that bear on the proxied exchange
+		clientAE := r.Pick("", "gzip", "gzip", "gzip, deflate", "identity", "deflate, gzip;q=0.5")
+		if clientAE != "" {
+			hreq.Header.Set("Accept-Encoding", clientAE)
+		}
+		tags = append(tags, "client-accept-encoding:"+clientAE)
+		if r.Chance(1, 4) {
+			hreq.Header.Set("Connection", "keep-alive")
+			hreq.Header.Set("TE", "trailers")
+		}
+		if r.Chance(1, 4) {
+			hreq.Header.Set("X-Forwarded-For", "10.1.2.3")
+		}
 		rw := httptest.NewRecorder()
 		done := make(chan struct{})
+		cw := &f18Writer{ResponseRecorder: rw, started: make(chan struct{})}
 		go func() {
-			stack.ServeHTTP(rw, hreq)
+			stack.ServeHTTP(cw, hreq)
 			close(done)
 		}()
 
-		// which remotes does this request reach
-		expectCalls := 0
+		// which remotes does this request reach, and how many of their requests may be in flight
+		total := 0
+		capacity := 1 << 30
 		if byUUID {
 			if known {
-				expectCalls = 1
+				total = 1
 				rems = rems[:1] // the cluster named by the uuid
 				order = rems
 			} else {
 				order, rems = nil, nil
 			}
 		} else if la.kind == f18Resp && la.code == 404 {
-			expectCalls = len(rems)
-		} else {
-			order = nil
-		}
-		finished := false
-		for narr := 0; narr < expectCalls && !finished; {
-			select {
-			case <-done:
-				finished = true
-			case <-tr.arrived:
-				narr++
-			case <-time.After(20 * time.Second):
-				t.Fatalf("case %d: the remotes were not all asked and the request did not complete", i)
+			total = len(rems)
+			if amplification > 0 {
+				capacity = amplification
 			}
 		}
-		syncTimeouts := 0
-		for _, rem := range order {
-			if finished || rem.ans.kind == f18Hang {
+		// The controller follows the implementation: it waits until as many requests are in flight as the
+		// capacity allows, releases the in-flight answer with the highest priority, waits until it is forwarded
+		// (the request completes) or disposed of (its body is closed), and so on.  A remote whose request does
+		// not arrive although a slot is free is an observation of the case (starved), judged by the evaluator.
+		asked, released := map[string]bool{}, map[string]bool{}
+		var relOrder []*f18Remote
+		inflight, completed, syncTimeouts := 0, 0, 0
+		finished, starved := false, false
+		for !finished && !starved {
+			want := total - completed
+			if want > capacity {
+				want = capacity
+			}
+			for inflight < want && !finished && !starved {
+				select {
+				case <-done:
+					finished = true
+				case id := <-tr.arrived:
+					asked[id] = true
+					inflight++
+				case <-time.After(f18Watchdog):
+					starved = true
+					f18Watchdog = 1500 * time.Millisecond // the tree is broken anyway: do not spend 15 s on every further case
+				}
+			}
+			if finished || starved {
 				break
+			}
+			var next *f18Remote
+			for _, rem := range order {
+				if asked[rem.id] && !released[rem.id] && rem.ans.kind != f18Hang {
+					next = rem
+					break
+				}
+			}
+			if next == nil {
+				break // every request in flight belongs to a silent remote
 			}
 			for len(tr.closed) > 0 {
 				<-tr.closed
 			}
-			close(rem.gate)
-			if rem.ans.kind == f18Fail {
+			close(next.gate)
+			released[next.id] = true
+			relOrder = append(relOrder, next)
+			inflight--
+			completed++
+			if next.ans.kind == f18Fail {
 				continue // nothing to observe; a transport error cannot be taken for an answer
 			}
-			// the answer is either forwarded (the request completes) or disposed of (its body is closed)
 			deadline := time.After(3 * time.Second)
 			for waiting := true; waiting; {
 				select {
 				case <-done:
 					finished, waiting = true, false
 				case id := <-tr.closed:
-					waiting = id != rem.id
+					waiting = id != next.id
+					if !waiting {
+						// closed because it was disposed of, or because it has just been forwarded to the client
+						// (the response to the client starts before the forwarded body is closed)
+						select {
+						case <-cw.started:
+							select {
+							case <-done:
+							case <-time.After(30 * time.Second):
+								t.Fatalf("case %d: the response to the client was started but the request did not complete", i)
+							}
+							finished = true
+						default:
+						}
+					}
 				case <-deadline:
 					syncTimeouts++
 					waiting = false
@@ -514,11 +633,7 @@ func TestVerifC18Fan(t *testing.T) {
 			}
 		}
 		if !finished {
-			hasHang := false
-			for _, rem := range rems {
-				hasHang = hasHang || rem.ans.kind == f18Hang
-			}
-			if hasHang && expectCalls > 0 {
+			if starved || completed < total {
 				// nobody answers any more: the client gives up
 				select {
 				case <-done:
@@ -528,8 +643,8 @@ func TestVerifC18Fan(t *testing.T) {
 			}
 			select {
 			case <-done:
-			case <-time.After(20 * time.Second):
-				t.Fatalf("case %d: the request did not complete", i)
+			case <-time.After(30 * time.Second):
+				t.Fatalf("case %d: the request did not complete although the client gave up", i)
 			}
 		}
 		cancel()
@@ -544,7 +659,7 @@ func TestVerifC18Fan(t *testing.T) {
 		}
 		desc := map[string]interface{}{"i": i, "path": path, "local_id": local, "pdh_of_base": pdh, "base": l18Render(base, true),
 			"local_answer": la.desc(), "calls": calls, "status": code, "body": rw.Body.String(), "extra_remote_entries": extra,
-			"max_request_amplification": amplification}
+			"max_request_amplification": amplification, "client_accept_encoding": clientAE, "local_compresses": tr.localGz}
 		if has {
 			desc["manifest_received"] = manifest
 		}
@@ -559,23 +674,40 @@ func TestVerifC18Fan(t *testing.T) {
 			desc["fn"] = "fetchRemoteCollectionByUUID"
 			term = fmt.Sprintf("FUuid %s %s %s %s %s (%s)", gStr(local), gStr(target), gBool(known), ans.term(), gStrs(calls), resTerm)
 		} else {
-			var arr []string
+			var arr, unasked []string
 			var arrDesc []interface{}
-			for _, rem := range order {
+			add := func(rem *f18Remote, state string) {
 				arr = append(arr, "("+gStr(rem.id)+", "+rem.ans.term()+")")
 				d := rem.ans.desc()
-				d["cluster"] = rem.id
+				d["cluster"], d["state"], d["compresses"] = rem.id, state, rem.gzip
 				arrDesc = append(arrDesc, d)
 			}
-			if order == nil {
-				// the remotes are never asked: the answers they would have given, in configuration order
-				for _, rem := range rems {
-					arr = append(arr, "("+gStr(rem.id)+", "+rem.ans.term()+")")
+			for _, rem := range relOrder {
+				add(rem, "released")
+			}
+			for _, rem := range rems {
+				if asked[rem.id] && !released[rem.id] {
+					add(rem, "in flight until the end")
 				}
 			}
+			for _, rem := range rems {
+				if !asked[rem.id] {
+					if total > 0 {
+						unasked = append(unasked, rem.id)
+						add(rem, "never asked")
+					} else {
+						add(rem, "not searched")
+					}
+				}
+			}
+			if starved {
+				tags = append(tags, "starved")
+			}
+			tags = append(tags, fmt.Sprintf("unasked:%d", len(unasked)))
+			desc["starved"] = starved
 			desc["fn"] = "fetchRemoteCollectionByPDH"
 			desc["release_order"] = arrDesc
-			term = fmt.Sprintf("FGet %s %s %s %s %s (%s)", gStr(local), gStr(req), la.term(), gList(arr), gStrs(calls), resTerm)
+			term = fmt.Sprintf("FGet %s %s %s %s %s %s %s (%s)", gStr(local), gStr(req), la.term(), gN(int64(amplification)), gList(arr), gStrs(unasked), gStrs(calls), resTerm)
 		}
 		cs.Add(i, term, desc, len(rems) >= 2 || (has && code == 200), tags...)
 	}
